@@ -274,18 +274,9 @@ theorem inCallRows_forall₂ {number : Bool} {Pa Pb : Value → Pair → Prop}
             exact .cons ⟨a, b, vals, cc, hp, hq, hu, hf, rfl⟩ (ih hrb hm)
 
 /-- the row loop swallows comparison errors, the batch loop reports them: where batch succeeds they agree -/
-theorem inValues_ok {number : Bool} {left : Value} : ∀ {vals : List Value} {c : Bool},
-    inValues number left vals = .ok c → inAnyList number left vals = c
-  | [], c, h => by simp [inValues] at h; simp [inAnyList, h]
-  | v :: vs, c, h => by
-    unfold inValues at h
-    unfold inAnyList
-    cases hc : compareBy number left v .eq with
-    | error e => simp [hc] at h
-    | ok b =>
-      cases b
-      · simp [hc] at h ⊢; exact inValues_ok h
-      · simp [hc] at h ⊢; exact h
+theorem inValues_ok {number : Bool} {left : Value} {vals : List Value} {c : Bool}
+    (h : inValues number left vals = .ok c) : inAnyList number left vals = c := by
+  unfold inValues at h; cases h; rfl
 
 theorem inAnyList_rel {number : Bool} {x x' : Value} (h : Rel x x') (vals : List Value) :
     inAnyList number x vals = inAnyList number x' vals := by
